@@ -23,12 +23,20 @@ Oracle pitfalls met while building (kept as comments where they bite):
   * a schedule is a list of worker indices; which thread is "worker w" is decided at its first gate by the
     first pair it presents (taken from a free probe run), never by spawn order;
   * a sequential start/join implementation would make most schedules infeasible; infeasible schedules
-    time out in the scheduler (watchdog) and count as inconclusive, not as violations.
+    time out in the scheduler (watchdog) and count as inconclusive, not as violations (tried: exit 2);
+  * DiscreteField is an ndarray subclass that carries grad/div/curl/hess as attributes: a checksum of the
+    array alone would miss the derivative tables (digest_obj walks `astuple`);
+  * `field.value` emits a DeprecationWarning through the process-global warnings registry on every call; the
+    integrands here use np.array(field) (under -W error a worker would die of it, see fam_observe);
+  * a store that does not go through ndarray.__setitem__ of the view (np.copyto, out=) is invisible to the
+    logging view: "slot never written" is only claimed when the returned block does NOT hold the right
+    non-zero value there; otherwise the store accounting of the run is dropped (tried: exit 2, not 1);
+  * a worker that raises does not make `assemble` raise (threading.excepthook prints, zeros stay in the block);
+    the harness records worker exceptions itself instead of relying on the return value.
 """
 from __future__ import annotations
 
 import sys
-import threading
 from collections import Counter
 
 import numpy as np
@@ -40,10 +48,10 @@ from .. import c16_harness as H
 PID = "C16"
 ENUM_LIMIT = 5000
 RULE = ("config = (mesh, trial element, test element, cell/facet basis, integrand, dtype, keyword parameters) x "
-        "nthreads in 1..Nu*Nv+2; per (config, nthreads) a free probe run yields the per-worker pair sequences, then "
+        "nthreads in 1..Nu*Nv+2 (the sweep adds 2*Nu*Nv+5 and the decorator / numpy-integer spellings); per (config, nthreads) a free probe run yields the per-worker pair sequences, then "
         "(a) controlled schedules: ALL interleavings of the per-worker gate sequences when their multinomial count "
         f"<= {ENUM_LIMIT} (kernel granularity: one gate per integrand call; fine granularity: a second gate between "
-        "compute and store), else structured + random samples; (b) free-running runs with sys.monitoring LINE/"
+        "compute and store), else structured + random samples (quick tier of the sampled-large family: limit 200); (b) free-running runs with sys.monitoring LINE/"
         "PY_RETURN yield injection (sleep(0) / 0-200 us) and shortened GIL switch interval.  One distinct non-trivial "
         "case = (Nu, Nv, nthreads, granularity, hash of the global gate-passage order) of a run in which >= 2 workers "
         "that each computed >= 1 pair were alive at the same time")
@@ -754,6 +762,34 @@ def fam_stress(ctx, k):
                 "injection": dict(totals)}, per_family=2)
 
 
+def fam_observe(ctx, k):
+    """Observation only, NOT a clause of C16: when the integrand raises, serial assembly raises, so there is no
+    'matrix of serial assembly' to compare with.  What the threaded path does is written into the evidence notes
+    (at the time of writing: the worker dies, threading.excepthook prints the traceback, `assemble` returns a
+    matrix whose slots of the unfinished pairs are zero)."""
+    import skfem
+    rng = ctx.rng()
+    cfg = build_config(rng, SMALL[4], "tiny", formname="convect", dtype=np.float64)
+    bad = cfg.ub.basis[cfg.Nu - 1][0]
+
+    def form(u, v, w):
+        if u is bad:
+            raise ValueError("integrand fails for the last trial function")
+        return np.array(u) * np.array(v)
+    seen = {}
+    for nth in (0, 2):
+        with H._QuietExcepthook() as q:
+            try:
+                A = skfem.BilinearForm(form, nthreads=nth).assemble(cfg.ub, cfg.vb)
+                seen[nth] = "returned a matrix (nnz=%d); worker deaths reported to threading.excepthook: %d" % (
+                    A.nnz, len(q.seen))
+            except ValueError as e:
+                seen[nth] = "raised " + repr(e)
+    ctx.notes["observation:integrand-raises"] = {"nthreads=0": seen[0], "nthreads=2": seen[2]}
+    if seen[0].startswith("raised") and seen[2].startswith("returned"):
+        ctx.reached("observed:integrand-exception-not-propagated-from-worker")
+
+
 _enum_kernel = fam_enum(False)
 _enum_fine = fam_enum(True)
 
@@ -765,6 +801,7 @@ FAMILIES = [
     Family("sampled-large", fam_sampled, quick=24, thorough=660, budget={"quick": 30, "thorough": 420}),
     Family("sweep-threadcounts", fam_sweep, quick=36, thorough=680, budget={"quick": 30, "thorough": 420}),
     Family("stress-yield", fam_stress, quick=16, thorough=480, budget={"quick": 30, "thorough": 420}),
+    Family("observe-integrand-exception", fam_observe, quick=1, thorough=1),
 ]
 
 
